@@ -263,20 +263,22 @@ def compositions(words):
 
 def big_record(rng, schema, max_list, big_strings, force_big=False):
     """A random record with long lists (and, rarely or when forced, 70 kB strings) - beyond the TLC bounds."""
-    def val(n):
-        def base():
+    def val(n, depth):
+        def base(d):
             if n["typ"] == "group":
-                return [val(k) for k in n["kids"]]
+                return [val(k, d) for k in n["kids"]]
             if n["typ"] == "string" and big_strings and (force_big or rng.random() < 0.02):
                 return 999
             return rng.randrange(0, 16)
         if n["rep"] == "req":
-            return base()
+            return base(depth)
         if n["rep"] == "opt":
-            return [] if rng.random() < 0.3 else [base()]
-        m = rng.choice([0, 0, 1, 2, 3, 8, 9, rng.randrange(0, max_list)])
-        return [base() for _ in range(m)]
-    return [val(n) for n in schema]
+            return [] if rng.random() < 0.3 else [base(depth)]
+        # nested lists multiply: only the outermost list of a path may be long (a record stays below ~10^4 entries per column)
+        lim = max_list if depth == 0 else (12 if depth == 1 else 4)
+        m = rng.choice([0, 0, 1, 2, 3, 8, 9, rng.randrange(0, lim)]) if depth == 0 else rng.choice([0, 1, 2, 3, rng.randrange(0, lim)])
+        return [base(depth + 1) for _ in range(m)]
+    return [val(n, 0) for n in schema]
 
 
 def c01():
